@@ -450,6 +450,12 @@ macro_rules! {macro_name} {{
                 };
                 return format!("use {root}_rt;\n{wit_map_use}{src}");
             }
+            // World-level functions live next to `_rt`, but still need the
+            // trait in scope for `wit_map_len`. This can be emitted more than
+            // once at the root, hence `as _`.
+            if self.needs_wit_map {
+                return format!("use _rt::WitMap as _;\n{src}");
+            }
         }
         src
     }
